@@ -39,6 +39,7 @@ type FuncInfo struct {
 	HasMod    bool
 	Decreases []ast.Expr
 	Flags     map[string]string
+	ReplayText ast.Expr
 	Loops     map[ast.Stmt]*LoopInfo
 	LoopList  []ast.Stmt
 	Results   []*types.Var
@@ -295,6 +296,8 @@ func (p *Prog) readMarkerPrefix(fi *FuncInfo, info *types.Info, list []ast.Stmt,
 			case "__modifies":
 				fi.HasMod = true
 				fi.Modifies = append(fi.Modifies, call.Args...)
+			case "__replaytext":
+				fi.ReplayText = call.Args[0]
 			case "__flag":
 				fi.Flags[strLit(call.Args[0], info)] = strLit(call.Args[1], info)
 			default:
